@@ -32,8 +32,12 @@ fn verif_native_source_view() {
     let p6 = "ret";
     let t6: Vec<&str> = vec!["ret"];
     let l6: Vec<(&str, u16)> = vec![];
+    // newlines are plain whitespace to the lexer: operands may continue on the following line(s)
+    let p7 = "add r0, r0,\n    #1\nlea r1,\r\n msg\nst\n\nr1\n\n,msg halt\nmsg .fill\n x0\n";
+    let t7: Vec<&str> = vec!["add r0, r0,\n    #1", "lea r1,\r\n msg", "st\n\nr1\n\n,msg", "halt", ".fill\n x0"];
+    let l7 = vec![("msg", 4u16)];
     let mut evaluated = 0u64;
-    for (src, orig, texts, labels) in [(p1, 0x3100u16, t1, l1), (p2, 0x3000, t2, l2), (p3, 0xFDF0, t3, l3), (p4, 0x3000, t4, l4), (p5, 0x3000, t5, l5), (p6, 0x3000, t6, l6)] {
+    for (src, orig, texts, labels) in [(p1, 0x3100u16, t1, l1), (p2, 0x3000, t2, l2), (p3, 0xFDF0, t3, l3), (p4, 0x3000, t4, l4), (p5, 0x3000, t5, l5), (p6, 0x3000, t6, l6), (p7, 0x3000, t7, l7)] {
         crate::symbol::reset_state();
         let src = leak(src);
         let mut air = crate::parser::AsmParser::new(src).expect("lex").parse().expect("parse");
